@@ -297,6 +297,7 @@ func init() {
 			{ID: "R05.2", Title: "no use of a value before the error returned with it was compared with nil (see C05)", Floor: 20, Run: ruleR052},
 			{ID: "R02.8", Title: "first-match folding of switch nodes agrees with the run-time order of the equality tests (see C02)", Floor: 0, Run: ruleR028},
 			{ID: "R02.4", Title: "the relations = and < and the operators derived from them are not declared commutative (regroupable): a comparison never yields a boolean where the written expression compares incomparable operands (see C02)", Floor: 15, Run: ruleR024(func(p *packages.Package) bool { return strings.HasSuffix(p.PkgPath, "/value") })},
+			{ID: "R09.1", Title: "the membership operator works on a copy: list backing slices are never written in place (see C09)", Floor: 36, Run: ruleR091},
 		},
 	})
 	register(&Property{
@@ -351,6 +352,7 @@ func init() {
 			{ID: "R17.6", Title: "the Custom hook of the JSON exporter does not take over the scalar types of the value package (scalars are written as their ToString form by the traversal)", Floor: 1, Run: ruleR176},
 			{ID: "R07.2", Title: "stores into fields of a value receiver are not lost: exporter state survives Add (see C07)", Floor: 0, Run: ruleR072},
 			{ID: "R13.1", Title: "key-domain agreement of the map storages (see C13)", Floor: 9, Run: ruleR131},
+			{ID: "R17.7", Title: "parallel slices stay parallel: of two slices filled side by side none is sorted alone and then used to index the other", Floor: 0, Run: ruleR177},
 		},
 	})
 	register(&Property{
@@ -371,6 +373,7 @@ func init() {
 			{ID: "R17.5", Title: "nothing that is handed back to a sync.Pool is returned (no result refers to pooled memory)", Floor: 0, Run: ruleR175},
 			{ID: "R07.2", Title: "stores into fields of a value receiver are not lost: exporter state survives Add (see C07)", Floor: 0, Run: ruleR072},
 			{ID: "R05.10", Title: "a recovered panic is reported on every path: a result the caller sees is set (see C05)", Floor: 8, Run: ruleR0510},
+			{ID: "R17.7", Title: "parallel slices stay parallel: of two slices filled side by side none is sorted alone and then used to index the other", Floor: 0, Run: ruleR177},
 		},
 	})
 	register(&Property{
